@@ -775,7 +775,11 @@ def expand(item):
             if d:
                 fl = None  # one mechanism, one key: no differential report on top of this
                 viols.append(core.viol("c16/exit-stale-cache", "history %s: after the exit, clearing every cache changes observable quantities (a stale value survived the scope): %s" % (hist, d[:3]), case))
-        if not viols:
+        # the root state is copied in a pass of its own (run()): a copy defect present in every
+        # state must not stop the search at depth 0
+        if not viols and (hist or item.get("rootcopies")):
+            if item.get("rootcopies"):
+                case = dict(case, rootcopies=True)
             v2, ncopies = copy_checks(s, case, len(hist) <= init.get("heavy", 2), rw)
             viols += v2
     # de-duplicate by key (one history reports a class once)
@@ -1031,6 +1035,10 @@ def run(ctx):
         st = explore.bfs(ctx, MOD, group, depth=depth)
         explore.merge_stats(total, st)
     explore.finish(ctx, total)
+    roots = [{"init": sc, "hist": [], "outs": [], "rootcopies": True} for sc in scs[:1]]  # all scenarios share the root
+    for r in core.pmap(MOD, "expand", roots):
+        ctx.add_violations(r["viols"])
+        ctx.count("root_states_copied")
     ctx.coverage["exhaustive"] = False  # histories are unbounded; bounds are stated
     ctx.coverage["depth"] = min(cap, b["depth"])
     ctx.coverage["depths"] = {str(k): len(v) for k, v in sorted(by_depth.items())}
@@ -1072,7 +1080,7 @@ def run(ctx):
 def evaluate(case):
     if case.get("kind") == "ro":
         return ro_eval(case)["viols"]
-    res = expand({"init": case["init"], "hist": case["hist"], "outs": case.get("outs", [])[: max(0, len(case["hist"]) - 1)]})
+    res = expand({"init": case["init"], "hist": case["hist"], "outs": case.get("outs", [])[: max(0, len(case["hist"]) - 1)], "rootcopies": case.get("rootcopies", False)})
     vs = res["viols"]
     if "other" in case:  # differential oracle of explore.bfs
         f1 = _LAST["full"]
